@@ -37,6 +37,7 @@ const (
 type RingLab struct {
 	inj, mon *realafp.TPacket
 	seq      uint32
+	down     bool
 	Settle   time.Duration
 }
 
@@ -220,6 +221,7 @@ func ringRead(s ringSock, copying bool, after uint32, isTimeout func(error) bool
 	return RingObs{Kind: "err:fifty foreign frames in a row"}
 }
 
+// D/U = the link of the socket's interface goes down / comes back (second enumeration of c20ring).
 // Ring operations: a/b/L = a frame arrives (accepted by the filter, 60 bytes / rejected by it / accepted,
 // 1200 bytes), F/S = the filter is attached with snap length 262144 / 80, R/r = zero-copy / copying read.
 const RingOps = "abLFSRr"
@@ -248,6 +250,15 @@ func (l *RingLab) RunReal(seq string) ([]RingObs, error) {
 			if err := s.SetBPF(ins); err != nil {
 				return nil, fmt.Errorf("SetBPF: %v", err)
 			}
+		case 'D':
+			if err := l.setLink(false); err != nil {
+				return nil, err
+			}
+			defer l.setLink(true)
+		case 'U':
+			if err := l.setLink(true); err != nil {
+				return nil, err
+			}
 		case 'R', 'r':
 			// the ring hands a block over when it is full or its timeout (1 ms here) has passed
 			time.Sleep(3*ringBlockTO + l.Settle)
@@ -255,6 +266,32 @@ func (l *RingLab) RunReal(seq string) ([]RingObs, error) {
 		}
 	}
 	return out, nil
+}
+
+// setLink brings the near end of the pair down or up. The monitor socket is bound to that end and keeps
+// the pending ENETDOWN like any packet socket, so it is replaced after every outage.
+func (l *RingLab) setLink(up bool) error {
+	link, err := netlink.LinkByName(ringIf)
+	if err != nil {
+		return err
+	}
+	if !up {
+		l.down = true
+		return netlink.LinkSetDown(link)
+	}
+	if !l.down {
+		return nil
+	}
+	l.down = false
+	if err := netlink.LinkSetUp(link); err != nil {
+		return err
+	}
+	time.Sleep(30 * time.Millisecond) // carrier
+	l.mon.Close()
+	if l.mon, err = realafp.NewTPacket(append(ringSmall(), realafp.OptInterface(ringIf))...); err != nil {
+		return fmt.Errorf("monitor socket: %v", err)
+	}
+	return nil
 }
 
 func ringOpFrame(op rune, id uint32) []byte {
@@ -300,7 +337,18 @@ func RunModel(seq string, firstID uint32) ([]RingObs, error) {
 			if err := t.SetBPF(ins); err != nil {
 				return nil, err
 			}
+		case 'D':
+			SetLinkDown(true)
+		case 'U':
+			SetLinkDown(false)
 		case 'R', 'r':
+			// the model runs on the real clock here (pass-through runtime): with a frame queued the poll timer is
+			// left out, so that a process stalled for 15 ms between arming it and the select cannot turn the read
+			// into a timeout (seen twice in 800 sequences)
+			t.poll = ringPoll
+			if t.rx.Len() > 0 {
+				t.poll = 0
+			}
 			out = append(out, ringRead(t, op == 'r', firstID, func(e error) bool { return e == ErrTimeout }))
 		}
 	}
